@@ -17,10 +17,42 @@ def _gen_script(rng, big):
             return rng.choice([1, -1]) * rng.randrange(1 << 60, 1 << 70)
         return rng.randint(-3, 3)
 
+    ment = []         # the variables each register mentions *structurally* (a coefficient that cancels arithmetically may still be there:
+    #                   `p0 - p0` after p0 := p1 is {p0: -1, p1: 1}), closed under the definitions settled so far
+    defs_ment = {}    # var -> the variables its definition mentions
+
+    def clos(vs):
+        out, todo = set(), list(vs)
+        while todo:
+            v = todo.pop()
+            if v in out:
+                continue
+            out.add(v)
+            todo.extend(defs_ment.get(v, ()))
+        return out
+
     def push(op, meaning):
         nonlocal nregs
         ops.append(op)
         sem.append(meaning)
+        t = op.split()
+        if t[0] == "V":
+            m = {int(t[1])}
+        elif t[0] == "L":
+            m = {int(x) for x in t[2::2]}
+        elif t[0] == "A":
+            m = ment[int(t[1])] | ment[int(t[2])]
+        elif t[0] in ("K", "M", "N"):
+            m = set(ment[int(t[1])])
+        elif t[0] in ("X", "PK"):
+            m = {int(t[1])}
+        elif t[0] in ("PA", "PS"):
+            m = {int(t[1]), int(t[2])}
+        elif t[0] in ("KP", "KS"):
+            m = {int(t[2])}
+        else:   # RA
+            m = ment[int(t[1])] | {int(t[2])}
+        ment.append(m)
         nregs += 1
 
     def padd(a, b):
@@ -89,12 +121,14 @@ def _gen_script(rng, big):
                 j = rng.randrange(i + 1, nv)
                 ops.append("S %d var %d" % (i, j))
                 known[i] = ("var", j)
+                defs_ment[i] = {j}
             elif how == "poly":
                 # a register that mentions only later variables (no cycles)
-                ok = [r for r in range(nregs) if all(v > i or a == 0 for v, a in sem[r][0].items())]
+                ok = [r for r in range(nregs) if all(v > i for v in clos(ment[r]))]
                 if not ok:
                     continue
                 r = rng.choice(ok)
+                defs_ment[i] = set(ment[r])
                 ops.append("S %d poly %d" % (i, r))
                 known[i] = ("poly", ({v: a for v, a in sem[r][0].items() if a != 0}, sem[r][1]))
             else:
@@ -271,6 +305,7 @@ def _arith(sem_r, known, free_vals, nv):
 def poly_stream(ctx, rng, n, what="LinearPolynomial"):
     from pdpy11 import deferred as D
     from . import internals
+    from . import impl as impl_mod
     try:
         depth0 = internals.try_depth(D)
     except internals.TieBroken as tb:
@@ -285,7 +320,14 @@ def poly_stream(ctx, rng, n, what="LinearPolynomial"):
         ctx.count("poly-scripts")
         inp = {"script": script, "variables": nv}
         try:
-            got, waits = _run_impl(nv, ops)
+            with impl_mod.watchdog(30.0):
+                got, waits = _run_impl(nv, ops)
+        except impl_mod.Hang:
+            ctx.violation("wait() on a linear polynomial did not end (no definition in the script mentions itself, directly or through others)",
+                          inp, expected="a value or a give-up", observed="still running after 30 s")
+            internals.set_try_depth(D, depth0)
+            del internals.awaiting_stack(D)[:]
+            continue
         except Exception as e:  # noqa: BLE001 - a crash of the engine on a legal script is a finding
             ctx.violation("LinearPolynomial raised on a legal operation script", inp, expected="a polynomial", observed=repr(e)[:300])
             internals.set_try_depth(D, depth0)
